@@ -8,7 +8,7 @@ Attribute keys are small ints, attribute values tagged int tuples.
 """
 import numpy as np
 
-ATTR_KEYS = {1: "color", 2: "wt", 3: "mult", 9: "label"}
+ATTR_KEYS = {1: "color", 2: "wt", 3: "mult", 4: "weight", 9: "label"}
 ATTR_KEYS_INV = {v: k for k, v in ATTR_KEYS.items()}
 
 UNKNOWN = -2  # a label the map cannot invert (reported as an anomaly)
